@@ -66,6 +66,7 @@ fn handle(f: &[String]) -> Vec<String> {
         }
         "chdir" => res(std::env::set_current_dir(&f[1]).map(|_| String::new()).map_err(|e| e.to_string())),
         "mkdir" => res(std::fs::create_dir_all(&f[1]).map(|_| String::new()).map_err(|e| e.to_string())),
+        "symlink" => res(std::os::unix::fs::symlink(&f[1], &f[2]).map(|_| String::new()).map_err(|e| e.to_string())),
         "mkfile" => res(std::fs::write(&f[1], &f[2]).map(|_| String::new()).map_err(|e| e.to_string())),
         "rm" => {
             let p = std::path::Path::new(&f[1]);
